@@ -207,6 +207,7 @@ func c19() {
 			run.Inconclusive(fmt.Sprintf("targets %v select the files %q, which no executed target covers: their constants cannot be observed here", tgs, sel))
 		}
 	}
+	c19GoarchOverlay(run, harness, bin)
 	// thorough: the compiler asserts the constants for targets that cannot be executed here (static, listed separately)
 	if run.Thorough() {
 		c19CompileAsserts(run, o)
@@ -262,4 +263,109 @@ func c19CompileAsserts(run *vlib.Run, o *vlib.Oracles) {
 	}
 	run.Set("built_only_targets_constants_asserted_by_compiler", ok)
 	run.Set("built_only_targets_assert_not_run", failed)
+}
+
+// c19GoarchOverlay executes the GOARCH-dependent code paths of the library for every GOARCH of the distribution list
+// on this host: the probe program is built with a `go build -overlay` in which every `runtime.GOARCH` in the library's
+// sources is replaced by the literal name of that architecture (nothing under /repo is changed), and run natively.
+// Architectures with syscall tables must compile the native policy; all others must fail with an
+// unsupported-architecture error and no program.
+func c19GoarchOverlay(run *vlib.Run, harness, bin string) {
+	repo := vlib.RepoDir()
+	var files []string
+	filepath.Walk(repo, func(p string, fi os.FileInfo, err error) error {
+		if err != nil || fi.IsDir() {
+			if fi != nil && fi.IsDir() && (fi.Name() == ".git" || fi.Name() == "cmd") {
+				return filepath.SkipDir
+			}
+			return nil
+		}
+		if strings.HasSuffix(p, ".go") && !strings.HasSuffix(p, "_test.go") {
+			if b, err := os.ReadFile(p); err == nil && strings.Contains(string(b), "runtime.GOARCH") {
+				files = append(files, p)
+			}
+		}
+		return nil
+	})
+	if len(files) == 0 {
+		run.Count("goarch_overlay_no_use_of_runtime_GOARCH_found", 1)
+		return
+	}
+	distOut, _ := exec.Command("go", "tool", "dist", "list").Output()
+	seen := map[string]bool{}
+	var goarchs []string
+	for _, l := range strings.Fields(string(distOut)) {
+		if p := strings.SplitN(l, "/", 2); len(p) == 2 && !seen[p[1]] {
+			seen[p[1]] = true
+			goarchs = append(goarchs, p[1])
+		}
+	}
+	sort.Strings(goarchs)
+	withTable := map[string]bool{"386": true, "amd64": true, "arm": true, "arm64": true}
+	dir := filepath.Join(bin, "c19overlay")
+	os.MkdirAll(dir, 0o755)
+	defer os.RemoveAll(dir)
+	var mu sync.Mutex
+	results := map[string]string{}
+	vlib.Parallel(len(goarchs), func(i int) {
+		ga := goarchs[i]
+		repl := map[string]string{}
+		for k, f := range files {
+			b, _ := os.ReadFile(f)
+			txt := strings.ReplaceAll(string(b), "runtime.GOARCH", fmt.Sprintf("func() string { _ = runtime.GOARCH; return %q }()", ga))
+			np := filepath.Join(dir, fmt.Sprintf("%s-%d.go", ga, k))
+			os.WriteFile(np, []byte(txt), 0o644)
+			repl[f] = np
+		}
+		ov, _ := json.Marshal(map[string]any{"Replace": repl})
+		ovPath := filepath.Join(dir, ga+"-overlay.json")
+		os.WriteFile(ovPath, ov, 0o644)
+		outp := filepath.Join(dir, "vconst-as-"+ga)
+		cmd := exec.Command("go", "build", "-tags", "verif", "-overlay", ovPath, "-o", outp, "./cmd/vconst")
+		cmd.Dir = harness
+		if b, err := cmd.CombinedOutput(); err != nil {
+			run.Inconclusive(fmt.Sprintf("GOARCH overlay build for %s failed: %v: %s", ga, err, tail(string(b), 300)))
+			return
+		}
+		out, err := exec.Command(outp).Output()
+		if err != nil {
+			run.Inconclusive(fmt.Sprintf("GOARCH overlay run for %s failed: %v", ga, err))
+			return
+		}
+		var m map[string]any
+		d := json.NewDecoder(bytes.NewReader(out))
+		d.UseNumber()
+		if d.Decode(&m) != nil {
+			run.Inconclusive("unreadable overlay probe output for " + ga)
+			return
+		}
+		run.Count("goarch_values_executed_through_overlay", 1)
+		nilProg, _ := m["native_assemble_nil_program"].(bool)
+		aerr := fmt.Sprint(m["native_assemble_error"])
+		eerr := fmt.Sprint(m["native_empty_policy_error"])
+		eins := jsonU64(m["native_empty_policy_instructions"])
+		gerr := fmt.Sprint(m["getinfo_default_error"])
+		mu.Lock()
+		results[ga] = fmt.Sprintf("native policy: nil_program=%v err=%q; empty policy: %d instructions err=%q; GetInfo(\"\") err=%q", nilProg, aerr, eins, eerr, gerr)
+		mu.Unlock()
+		replay := map[string]any{"check": "C19", "goarch_literal": ga, "result": m}
+		if withTable[ga] {
+			if nilProg || aerr != "" || gerr != "" {
+				run.Violation("overlay:"+ga+":table-arch-does-not-compile", fmt.Sprintf("with runtime.GOARCH=%q the native policy does not compile: %s", ga, aerr+gerr), replay)
+			}
+			return
+		}
+		if !nilProg || aerr == "" || gerr == "" || eins != 0 || eerr == "" {
+			run.Violation("overlay:no-table-arch-compiles", fmt.Sprintf("with runtime.GOARCH=%q (no syscall table): %s", ga, results[ga]), replay)
+			return
+		}
+		for _, e := range []string{aerr, eerr, gerr} {
+			if !strings.Contains(e, "unsupported arch") {
+				run.Violation("overlay:no-table-arch-other-error", fmt.Sprintf("with runtime.GOARCH=%q (no syscall table) the failure is not an unsupported-architecture error: %q", ga, e), replay)
+				return
+			}
+		}
+	})
+	run.Set("goarch_overlay_results", results)
+	run.Set("goarch_overlay_files_rewritten", files)
 }
